@@ -26,16 +26,13 @@
 (*     every state s, an exact integer-linear identity in lattice          *)
 (*     coordinates.                                                        *)
 (***************************************************************************)
-EXTENDS Omega, Fx, Json, IOUtils
+EXTENDS VecStars, Json, IOUtils
 
 Cases == JsonDeserialize(IOEnv.CASE_FILE)
 VARIABLE k
 
 SeqSet(s) == {s[n] : n \in DOMAIN s}
 One == <<100000, 0>>           \* 1.0 at scale 1
-
-DimFix(stab) == FoldSet(LAMBDA g, acc : acc + Trace(g[1]), 0, stab) \div Cardinality(stab)
-NProper(stab) == Cardinality({g \in stab : Det(g[1]) = 1})
 
 Eval(kk, cArg) ==
   LET c == cArg
@@ -46,11 +43,14 @@ Eval(kk, cArg) ==
       NS == Len(st)
       NV == Len(c.vecpos)
       \* image of state number s under g (0 when the image is not a state of the star set)
-      img == Force([s \in 1..NS |-> [g \in G |->
+      \* (tabulated only for the states it is asked for: the representative of every star and the first state of
+      \* every vector star)
+      rep(m) == c.stars[m][1]
+      asked == {c.vecpos[a][1] : a \in {a2 \in 1..Len(c.vecpos) : c.vecpos[a2] # <<>>}}
+      img == Force([s \in asked |-> [g \in G |->
                 LET x == ActPS(w, cc, g, st[s]) IN
                 IF \E n \in 1..NS : st[n] = x THEN CHOOSE n \in 1..NS : st[n] = x ELSE 0]])
-      rep(m) == c.stars[m][1]
-      stab == Force([m \in DOMAIN c.stars |-> {g \in G : img[rep(m)][g] = rep(m)}])
+      stab == Force([m \in DOMAIN c.stars |-> StabOfState(w, cc, G, st[rep(m)])])
       dim == Force([m \in DOMAIN c.stars |-> DimFix(stab[m])])
       starset == Force([m \in DOMAIN c.stars |-> SeqSet(c.stars[m])])
       vset == Force([a \in 1..NV |-> SeqSet(c.vecpos[a])])
@@ -66,11 +66,12 @@ Eval(kk, cArg) ==
         IN /\ s2 > 0
            /\ \E n2 \in DOMAIN c.vecpos[a] :
                 /\ c.vecpos[a][n2] = s2
-                /\ \A i \in 1..w.dim :
-                     FxAbsLe(FxLin([j \in 1..(w.dim + 1) |->
-                                      IF j <= w.dim THEN <<g[1][i][j], v[j]>> ELSE <<-1, c.vecvec[a][n2][i]>>]),
-                             c.vtol)
-      Equiv(a) == \A n \in DOMAIN c.vecpos[a] : \A g \in G : EquivAt(a, n, g)
+                /\ Len(v) = w.dim /\ Len(c.vecvec[a][n2]) = w.dim
+                /\ RotatesTo(g[1], v, c.vecvec[a][n2], c.vtol)
+      \* G is a group and the vector star lives on ONE orbit (clauses 1, 2), so equivariance at one state s0 for
+      \* EVERY g -- which includes well-definedness: g s0 = h s0 => R_g v(s0) = R_h v(s0), i.e. invariance under the
+      \* stabiliser -- implies it at every state: v(g h s0) = R_gh v(s0) = R_g v(h s0).
+      Equiv(a) == c.vecpos[a] # <<>> /\ \A g \in G : EquivAt(a, 1, g)
       badeq == {a \in 1..NV : ~Equiv(a)}
       cl == <<
         <<"input_stars_are_symmetry_orbits",
@@ -79,6 +80,11 @@ Eval(kk, cArg) ==
             /\ Len(c.vecvec) = NV
             /\ \A a \in 1..NV : /\ starof(a) > 0 /\ Len(c.vecpos[a]) = Cardinality(vset[a])
                                 /\ Len(c.vecvec[a]) = Len(c.vecpos[a])>>,
+        \* model-level sanity of the oracle: the character sum is a multiple of the stabiliser's order, the
+        \* stabiliser contains the identity, and the dimension lies in 0..dim
+        <<"model_character_formula_integral",
+            \A m \in DOMAIN c.stars : /\ DimFixExact(stab[m]) /\ IdentityRT(w) \in stab[m]
+                                      /\ dim[m] \in 0..w.dim>>,
         <<"number_of_vector_stars_is_sum_of_invariant_dimensions", NV = total>>,
         <<"each_star_carries_dim_of_invariant_space_vector_stars", \A m \in DOMAIN c.stars : nvs[m] = dim[m]>>,
         <<"orthonormal",
